@@ -228,10 +228,12 @@ def gen(rng, tier):
         elif w == "other":
             d["model"] = "other"
         yield d
-    for _ in range(40 if not big else 300):
+    for _ in range(60 if not big else 450):
         n = rng.randint(0, 6)
-        nc = rng.choice([1, 2, 3, 0, -1, None])
-        ci = rng.choice([0, 0, 1, 2, -1, -4, None])
+        nc = rng.randint(1, 4)
+        ci = rng.randrange(nc)
+        if rng.random() < 0.3:      # the two arguments the VI branch reads since the repair
+            nc, ci = rng.choice([(0, 0), (0, -1), (-1, 0), (None, 0), (nc, None), (None, None), (nc, nc), (nc, nc + 1), (nc, -1), (nc, -nc), (nc, -nc - 1)])
         yield dict(kind="vi", seed=rng.choice([0, 5, -1]), n=n, returned=rng.choice([n, n, max(0, n - 1), n + 1, 0]), len0=rng.choice([0, 0, 1]),
                    nc=nc, ci=ci, malformed=True)
 
